@@ -10,6 +10,12 @@ TB = ("Trusted base: the chain model of DESIGN.md section 3.1 (bank, staking wit
       "budget F, principals and amount lattice as reported in the evidence file; envelope of DESIGN.md section 4.")
 
 CLAIMED = {
+ "C14": ("5 (C14)", "Every sequence of <= D (4 quick, 5 thorough) bSei operations (mint, transfers incl. to self, send-to-hub unbond/convert, allowance-based transfer/send/burn), reward deliveries (7, 1000; and 1, 1e18 against a 9e17 holder) and claims by 2-3 holders plus a spender, including deliveries while nobody holds bSei. In every distinct state the exact accrued reward of every holder (Holders + State queries, 1e-18 fixed point, 256-bit) is summed and compared with the recorded and the actual reward balance (solvent, recorded <= actual, stranded <= updates + 1 units, claimed <= delivered); every claim must pay exactly the whole-unit part, keep the fraction and fail only when less than one unit accrued.",
+         "explicit-state BFS of the real contracts, exact fixed-point recomputation in every state"),
+ "C15": ("5 (C15)", "Four exhaustive bounded explorations on the real contracts: (i) a reference accrual ledger carried in the state key, updated only at deliveries by balance x distributed / total, bounds every holder's accrued + claimed reward to within a few 1e-18 units; (ii) frame oracle: every non-delivery transition leaves every holder's exact accrued reward unchanged (own claim excepted), so rewards never travel with tokens and late tokens earn nothing; (iii) commutation diamonds: in every state to depth 2/3 every pair of enabled operations of different actors is executed in both orders on clones and the reward contract's storage must be byte-identical; (iv) product exploration: two worlds (alice's holding in one account / split over two) explored in lock-step to depth 5-7 under identical operations of everyone else, accruals must be equal.",
+         "explicit-state BFS with reference ledger, commutation diamonds on clones of every state, and lock-step product exploration"),
+ "C16": ("5 (C16)", "Every sequence of <= D (3-4 quick, 4-6 thorough) calls of every bSei entry point (mint via bond, burn via unbond/convert, transfer incl. to self, send to hub with both hooks, send to a non-hub contract, increase/decrease allowance, TransferFrom incl. recipient = owner and zero amount, SendFrom, BurnFrom) by holders, a spender and the hub from a token without initial balances; in every distinct state the reward contract's full Holders list is compared with the token's AllAccounts/Balance for every address, and the totals are compared.",
+         "explicit-state BFS of the real contracts, mirror invariant in every state"),
  "C05": ("5 (C05)", "Start states are all 12 (peg_recovery_fee, er_threshold) configurations x 2 slash depths of a two-pool deployment (plus a 1e15-scaled instance with 0.01% and 50% slashes); every sequence of <= D (3 quick, 5 thorough) fee-path transactions (bond, unbond bSei, convert both directions; amounts 1, half, all, 100, 5000) by two users is executed and each successful one is compared with the exact no-fee amount (no fee at or above the threshold, 0 <= fee <= basis x peg_recovery_fee) and with the post-state peg (bSei backing <= claims + 2 whenever the operation started below 1).",
          "explicit-state BFS of the real contracts over fee configurations, exact fee recomputation"),
  "C12": ("5 (C12)", "Exhaustive input enumeration through the two public planning functions: every validator list of length 0..=4 (5 thorough) with delegations 0..=5 (7) in every order, every amount 0..=sum+6, and the same box scaled by 1e6+3, 1e12+7 and ~1e18/(L*V) with +-1 perturbations (~5e5 calls quick, ~4e7 thorough), each under a 2 s non-termination watchdog, each checked for conservation, no stake to validators above the even share, no lift above ceil(share), no push below floor(share), error iff empty list or excessive request.",
